@@ -9,7 +9,7 @@ WT = "/tmp/mm-wt"
 
 M = []
 SKIP = {"pop_front_inc_start_first"}  # a value-level error (reads the wrong slot) that no structural rule can see
-TIER = {"dbg_sub_mod_tightened": "thorough", "drain_read_assert_range_end": "thorough"}
+TIER = {"dbg_sub_mod_tightened": "thorough", "drain_read_assert_range_end": "thorough", "dbg_csp_add_tightened": "thorough", "dbg_drop_range_end_tightened": "thorough", "dbg_csp_offset_le": "thorough"}
 
 
 def mut(name, file, old, new, expect, features=None, count=1):
@@ -234,6 +234,8 @@ mut("eio_fill_buf_longer_slice", E, """impl<const N: usize> embedded_io::BufRead
     fn fill_buf(&mut self) -> Result<&[u8], Self::Error> {
         let (front, back) = self.as_slices();
         if front.len() >= back.len() {""", ["C16:TWIN"])
+mut("dbg_csp_add_tightened", D, """        debug_assert!(increment <= self.slice_len);""", """        debug_assert!(increment < self.slice_len);""", ["C11:DBGASSERT1"])
+mut("dbg_drop_range_end_tightened", L, """        debug_assert!(range.end <= size, "end of range out-of-bounds");""", """        debug_assert!(range.end < size, "end of range out-of-bounds");""", ["C11:DBGASSERT1"])
 mut("view_back_off_by_one", L, """            let (back, front) = self.items.split_at(start);
             (front, &back[..end])""", """            let (back, front) = self.items.split_at(start);
             (front, &back[..end + 1])""", ["C07:VIEW2", "C04:VIEW2"])
